@@ -408,6 +408,13 @@ def space(kind):
         SP[kind] = api.function_space(g, *{"p1": ("P", 1), "dp0": ("DP", 0)}[kind])
     return SP[kind]
 P = Z.params(4, 5)
+def other_grid():
+    """a different grid with the same number of elements and vertices: elements renumbered, local vertex order rotated, translated"""
+    from vlib import symgrid as SG
+    el = np.roll(g.elements, 3, axis=1).copy()
+    for j in range(el.shape[1]):
+        el[:, j] = np.roll(el[:, j], j %% 3)
+    return SG.make_grid(g.vertices + np.array([[5.0], [0.3], [-0.2]]), el, np.roll(g.domain_indices, 3))
 def final():
     """the designated operators: explicit parameter object, dense + fmm + potential + sparse; global parameters put back to fixed values first"""
     api.GLOBAL_PARAMETERS.quadrature.regular, api.GLOBAL_PARAMETERS.quadrature.singular = 4, 4
@@ -435,6 +442,8 @@ ACTIONS = {
   "clear_fmm_cache": lambda: fmm_assembler.clear_fmm_cache(),
   "create space": lambda: api.function_space(g, "DP", 1),
   "mass_matrix": lambda: space("p1").mass_matrix(),
+  "dense on another grid of equal size": lambda: (lambda og: laplace.single_layer(api.function_space(og, "DP", 0), api.function_space(og, "P", 1), api.function_space(og, "P", 1), parameters=P).weak_form())(other_grid()),
+  "hypersingular on another grid of equal size": lambda: (lambda og: helmholtz.hypersingular(api.function_space(og, "P", 1), api.function_space(og, "P", 1), api.function_space(og, "P", 1), 1.1, parameters=P).weak_form())(other_grid()),
   "fmm potential": lambda: plaplace.single_layer(space("dp0"), np.array([[2.0, 0.1], [0.3, 2.2], [0.1, -0.4]]), assembler="fmm").evaluate(api.GridFunction(space("dp0"), coefficients=np.ones(space("dp0").global_dof_count))),
 }
 hist = json.loads(sys.argv[1])
@@ -455,13 +464,14 @@ def _run_history(hist):
 
 HISTORIES = [
     [],
-    ["set quadrature 1/1", "mass_matrix", "strong form", "set quadrature 6/3"],
+    ["dense on another grid of equal size", "set quadrature 1/1", "mass_matrix", "strong form", "set quadrature 6/3"],
     ["create+weak fmm", "set quadrature 6/3", "create+weak fmm"],
     ["set quadrature 2/2", "create+weak dense", "mass_matrix", "set quadrature 6/3"],
     ["create+weak fmm", "set fmm params", "clear_fmm_cache", "fmm potential"],
     ["fmm potential", "set quadrature 6/3", "fmm potential", "strong form"],
     ["set fmm params", "create+weak fmm", "create space", "set quadrature 2/2", "fmm potential"],
     ["mass_matrix", "strong form", "set quadrature 6/3", "create+weak dense", "clear_fmm_cache", "create+weak fmm"],
+    ["hypersingular on another grid of equal size", "create+weak dense", "dense on another grid of equal size"],
 ]
 
 
